@@ -199,6 +199,10 @@ func ZZVerif_C09_ClaimProofs() {
 			if zzverif.Param("GIFULL") == 1 {
 				// full-length encodings only (the byte-length cases of the global index are the subject of C19)
 				m0, r0, l0 := zzverif.Param("MAINNET") == 1, zzverif.U32("cRollupF")|1<<31, zzverif.U32("cLeafF")
+				if zzverif.Param("SYMIDX") == 0 {
+					// concrete tree positions (several patterns are registered); symbolic positions: SYMIDX=1
+					r0, l0 = uint32(zzverif.Param("RIDX"))+uint32(j)|1<<31, uint32(zzverif.Param("LIDX"))+uint32(5*j)
+				}
 				c.GlobalIndex = bridgesync.GenerateGlobalIndex(m0, r0, l0)
 			}
 			mainnet, rollupIdx, leafIdx, _ := bridgesync.DecodeGlobalIndex(c.GlobalIndex)
